@@ -43,7 +43,7 @@ IsResRoot(dr, n) ==
 RECURSIVE BaseAt(_, _, _)
 BaseAt(dr, D, p) ==
   LET n == NodeAtS(D.s, p)
-      parent == IF p = <<>> THEN D.uri ELSE BaseAt(dr, D, Front(p))
+      parent == IF p = <<>> THEN D.uri ELSE BaseAt(dr, D, ButLast(p))
   IN IF IsResRoot(dr, n) THEN ResolveURI(parent, n.id.u) ELSE parent
 
 \* Path of the root of the resource that contains path p.
@@ -51,7 +51,7 @@ RECURSIVE ResRootPath(_, _, _)
 ResRootPath(dr, D, p) ==
   IF p = <<>> THEN <<>>
   ELSE IF IsResRoot(dr, NodeAtS(D.s, p)) THEN p
-  ELSE ResRootPath(dr, D, Front(p))
+  ELSE ResRootPath(dr, D, ButLast(p))
 
 ResAddr(U, dr, a) == Addr(a.d, ResRootPath(dr, Doc(U, a.d), a.p))
 
@@ -135,7 +135,7 @@ DupAnchors(U, dr, d) ==
 \* document has no absolute base and uses no $id), every reference is
 \* resolvable against its base, no two resources of a document share a URI.
 RECURSIVE ParentBase(_, _, _)
-ParentBase(dr, D, p) == IF p = <<>> THEN D.uri ELSE BaseAt(dr, D, Front(p))
+ParentBase(dr, D, p) == IF p = <<>> THEN D.uri ELSE BaseAt(dr, D, ButLast(p))
 IdsOK(dr, D) ==
   \A q \in AllPaths(D.s) :
      IsResRoot(dr, NodeAtS(D.s, q)) =>
